@@ -239,7 +239,6 @@ func (in *Interp) forStmt(s *rt.Node) (ctl, *RErr) {
 		}
 		if in.exited {
 			// exit() in the init clause: no later statement has any effect
-			in.W.unspec("exit() inside a for clause")
 			return ctlExit, nil
 		}
 	}
@@ -253,7 +252,6 @@ func (in *Interp) forStmt(s *rt.Node) (ctl, *RErr) {
 				return ctlNone, err
 			}
 			if in.exited {
-				in.W.unspec("exit() inside a for clause")
 				return ctlExit, nil
 			}
 			if !Truthy(v) {
@@ -277,7 +275,6 @@ func (in *Interp) forStmt(s *rt.Node) (ctl, *RErr) {
 				return ctlNone, err
 			}
 			if in.exited {
-				in.W.unspec("exit() inside a for clause")
 				return ctlExit, nil
 			}
 		}
